@@ -52,11 +52,22 @@ type Scenario struct {
 	PrevTS          uint64        `json:"prev_ts,omitempty"`    // timestamp of the ledger tip at start
 	PrevTSSet       bool          `json:"prev_ts_set,omitempty"`
 	ZeroStart       bool          `json:"zero_start,omitempty"` // StartHeight 0 is meant literally
+	E2              *E2Spec       `json:"e2,omitempty"`         // open-environment mode: one real node
+	Pools           map[int][]H   `json:"pools,omitempty"`      // per-node initial pool (overrides Pool)
+	ByzScript       []ByzStep     `json:"byz_script,omitempty"` // sends of the Byzantine member that are part of the base (cost 0)
 
 	// derived helpers (not serialised)
+	e2cache *e2env
 	RejectPayload func(node int, p *Payload) bool     `json:"-"`
 	FailPreBlock  func(node int, h uint32, call int) bool `json:"-"`
 	FailBlock     func(node int, h uint32, ok int) bool   `json:"-"`
+}
+
+// ByzStep is one scripted send of a Byzantine member.
+type ByzStep struct {
+	Item string `json:"item"`
+	View int    `json:"view"`
+	Mask int    `json:"mask"`
 }
 
 // Dev says which deviation kinds are part of the alphabet.
@@ -201,6 +212,8 @@ type World struct {
 	stats *Stats
 
 	lastNPR *prepReq // arguments of the latest NewPrepareRequest callback (C15)
+	e2      *e2env
+	skips   int
 }
 
 // Stats are distinct-outcome counters accumulated across an exploration.
@@ -237,7 +250,11 @@ func newWorld(sc *Scenario, st *Stats) *World {
 	for id := 0; id < len(sc.Kinds); id++ {
 		n := &Node{id: id, kind: sc.Kinds[id], w: w, height: sc.StartHeight, tip: tip, tipTS: genesisTS,
 			known: map[H]bool{}, cvSeen: map[uint32]map[uint16]byte{}}
-		for _, t := range sc.Pool {
+		pool := sc.Pool
+		if pp, ok := sc.Pools[id]; ok {
+			pool = pp
+		}
+		for _, t := range pool {
 			if !slices.Contains(sc.Missing[id], t) {
 				n.known[t] = true
 				n.pool = append(n.pool, t)
@@ -249,6 +266,12 @@ func newWorld(sc *Scenario, st *Stats) *World {
 	if sc.Dev.Byz {
 		w.byz = newByzState(w)
 	}
+	if sc.E2 != nil {
+		if sc.e2cache == nil {
+			sc.e2cache = buildE2(w)
+		}
+		w.e2 = sc.e2cache
+	}
 	for _, n := range w.nodes {
 		if n.kind.real() {
 			n.build()
@@ -259,6 +282,9 @@ func newWorld(sc *Scenario, st *Stats) *World {
 		if n.kind.real() {
 			n.Start()
 		}
+	}
+	if w.byz != nil && len(sc.ByzScript) > 0 {
+		w.byz.runScript()
 	}
 	return w
 }
@@ -313,6 +339,7 @@ func (w *World) onDecide(n *Node, b *Block) {
 
 // send puts a broadcast payload in flight to every other participant.
 func (w *World) send(from *Node, p *Payload) {
+	p.srcNode = from.id
 	if !w.wireSet[p.Hash()] {
 		w.wireSet[p.Hash()] = true
 		w.wire = append(w.wire, p)
@@ -331,6 +358,7 @@ func (w *World) send(from *Node, p *Payload) {
 
 // inject puts a payload from a scripted member in flight to chosen destinations.
 func (w *World) inject(p *Payload, dsts []int) {
+	p.srcNode = -1
 	if !w.wireSet[p.Hash()] {
 		w.wireSet[p.Hash()] = true
 		w.wire = append(w.wire, p)
@@ -383,6 +411,9 @@ func (w *World) lagging(n *Node) bool {
 
 // enabled lists the events possible now; the first one is the default (cost 0).
 func (w *World) enabled() []Event {
+	if w.sc.E2 != nil {
+		return w.e2Enabled()
+	}
 	if w.done() || w.steps >= w.sc.MaxDepth {
 		return nil
 	}
@@ -658,6 +689,16 @@ func (w *World) apply(e Event) {
 		w.restart(n)
 	case "byz":
 		w.byz.apply(e)
+	case "inj":
+		w.e2Apply(e)
+	case "skip":
+		// the ledger advanced by two blocks obtained elsewhere (sync); the application re-initialises consensus
+		w.skips++
+		n.height += 2
+		n.tip = H(0x5100 + uint64(n.height))
+		n.tipTS += 2 * uint64(w.sc.TimePerBlock)
+		n.pendingReset = true
+		n.Reset()
 	default:
 		panic(harnessFault{"unknown event kind " + e.K})
 	}
@@ -726,6 +767,10 @@ func (w *World) describe(e Event) string {
 		if w.byz != nil {
 			return w.byz.describe(e)
 		}
+	case "inj":
+		if w.e2 != nil && e.A < len(w.e2.syms) {
+			return "env hands X: " + w.e2.syms[e.A].name
+		}
 	}
 	return e.String()
 }
@@ -782,6 +827,15 @@ func (w *World) key() [2]uint64 {
 	}
 	if w.cutActive {
 		put(uint64(1000 + w.cutLeft))
+	}
+	if w.sc.E2 != nil {
+		put(uint64(w.skips))
+		// dynamic symbols depend on X's own proposals seen on the wire
+		for _, p := range w.wire {
+			if p.typ == dbft.PrepareRequestType && p.srcNode == w.sc.E2.X {
+				put(uint64(p.Hash()))
+			}
+		}
 	}
 	if w.byz != nil {
 		put(w.byz.key())
